@@ -31,6 +31,8 @@ type Opts struct {
 	FixedLayout        string // "" = random
 	LongNames          bool   // identifier lengths 1..40
 	UniqueMethodNames  bool   // method names unique in the whole project (default true unless Overloads)
+	CStyleArrays       bool   // parameters may be written `int samples[]`
+	HotBias            int    // chance in 10 that a variable gets the "hot" type / a call on it targets the hot method (C05: many sites of one method)
 	FieldsFirst        bool   // fields are declared before the constructors and methods (receivers "declared at an earlier point")
 }
 
@@ -61,6 +63,8 @@ type genCtx struct {
 	nameSeq int
 	usedM   map[string]bool
 	mid     int
+	hot     *typeInfo
+	hotM    string
 }
 
 func (g *genCtx) fresh(prefix string) string {
@@ -179,8 +183,22 @@ func Generate(r *run.Rand, o Opts) *Project {
 		g.byName[name] = append(g.byName[name], ti)
 		p.Files = append(p.Files, f)
 	}
+	if o.HotBias > 0 {
+		g.hot = g.types[r.Intn(len(g.types))]
+	}
 	for _, ti := range g.types {
 		g.skeleton(ti)
+	}
+	if g.hot != nil {
+		var cands []string
+		for _, m := range g.hot.Decl.Methods() {
+			if !m.IsCtor {
+				cands = append(cands, m.Name)
+			}
+		}
+		if len(cands) > 0 {
+			g.hotM = cands[r.Intn(len(cands))]
+		}
 	}
 	if o.Bodies {
 		for _, ti := range g.types {
@@ -209,6 +227,9 @@ func Generate(r *run.Rand, o Opts) *Project {
 		}
 	}
 	FinalizeSites(p)
+	if g.hot != nil {
+		p.HotPkg, p.HotClass, p.HotMethod = g.hot.Pkg, g.hot.Simple, g.hotM
+	}
 	return p
 }
 
@@ -259,6 +280,9 @@ var methodAnnoPool = []string{"Override", "Deprecated", "Transactional", "Cachea
 // pickType returns a type text for a variable plus whether it is a plain class name.
 func (g *genCtx) pickType(self *typeInfo) (text string, plain *typeInfo, ext *external) {
 	r := g.r
+	if g.hot != nil && r.Chance(g.o.HotBias, 10) && len(g.byName[g.hot.Simple]) == 1 {
+		return g.hot.Simple, g.hot, nil
+	}
 	switch k := r.Intn(10); {
 	case k < 4 && len(g.types) > 0:
 		t := g.types[r.Intn(len(g.types))]
@@ -357,6 +381,15 @@ func (g *genCtx) skeleton(ti *typeInfo) {
 				m.Modifiers = []string{r.Pick([]string{"public", "protected", "private"})}
 			}
 			m.Params = g.params(ti, k-1+r.Intn(2))
+			for again := true; again; {
+				again = false
+				for _, other := range t.Methods() {
+					if other.IsCtor && sigOf(other) == sigOf(m) {
+						m.Params = append(m.Params, Param{Type: "int", Name: g.fresh("n")})
+						again = true
+					}
+				}
+			}
 			t.Members = append(t.Members, m)
 		}
 	}
@@ -445,7 +478,7 @@ func (g *genCtx) skeleton(ti *typeInfo) {
 func sigOf(m *Method) string {
 	var ts []string
 	for _, p := range m.Params {
-		ts = append(ts, p.Type)
+		ts = append(ts, p.Type+p.Dims)
 	}
 	return strings.Join(ts, ",")
 }
@@ -490,6 +523,9 @@ func (g *genCtx) params(ti *typeInfo, n int) []Param {
 		}
 		used[name] = true
 		p := Param{Type: ty, Name: name}
+		if g.o.CStyleArrays && r.Chance(1, 8) && !strings.ContainsAny(ty, "[<") {
+			p.Dims = r.Pick([]string{"[]", "[]", "[][]"})
+		}
 		if r.Chance(1, 6) {
 			p.Final = true
 		}
